@@ -208,7 +208,7 @@ func (d *refDriver) Run(cc core.Case) core.Outcome {
 		}
 	}
 	cp := model.CompileWith(s, c.Options.IgnoreNotSupported)
-	must := model.MustReport(s)
+	must := model.MustReportWith(s, c.Options.IgnoreNotSupported)
 	execs := append([]c05Run{{Order: names, Sched: maporder.Canonical()}}, c.Runs...)
 	var canonText string
 	canonCrashed := false
@@ -367,6 +367,6 @@ func (d *refDriver) Describe(cc core.Case) string {
 	for i, r := range c.Runs {
 		fmt.Fprintf(&sb, "run %d: order=%v sites=%v\n", i, r.Order, culpritSites(r.Sched))
 	}
-	fmt.Fprintf(&sb, "must report: %v\n", model.MustReport(latestOnly(c.scenario())))
+	fmt.Fprintf(&sb, "must report: %v\n", model.MustReportWith(latestOnly(c.scenario()), c.Options.IgnoreNotSupported))
 	return sb.String()
 }
